@@ -16,8 +16,12 @@
 // Part 2 (hand-over histories): mc.BFS over event sequences (depth 2-3 quick / 3-4 thorough) on fresh
 // ledgers: plain / config-announcing (add, remove, replace a validator) blocks and headers signed by the
 // set in force, by the previous set, by one signer too few, with a wrong block root or a wrong state root
-// (rejected after signature verification), and restart. The reference model changes the set in force
-// only when a block (header) announcing NewChainConfig is accepted.
+// (rejected after signature verification), and restart. On every path a config-ANNOUNCING header/block is
+// also refused at EVERY rejection stage (bad timestamp, too few bookkeepers, foreign bookkeeper, no / damaged
+// / wrong-hash signatures under a correct bookkeeper list, undecodable payload, wrong block root, wrong
+// state root), each followed by a header/block signed by the announced set; the same suite runs in the
+// sweep for every N, region and path. The reference model changes the set in force only when a block
+// (header) announcing NewChainConfig is accepted.
 package main
 
 import (
@@ -411,6 +415,12 @@ func (s *sim) call(path string, sp sigSpec, newSet []*polyenv.Acct, defect, key 
 	hdr := &types.Header{Version: types.CURR_HEADER_VERSION, ChainID: polyenv.ChainID(), PrevBlockHash: prevHash,
 		Timestamp: prevHdr.Timestamp + 1, Height: height, ConsensusData: s.seq,
 		ConsensusPayload: polyenv.VbftPayload(s.blkCfgH, cfg), NextBookkeeper: polyenv.OperatorAddr(s.gvals)}
+	switch defect {
+	case "badtime":
+		hdr.Timestamp = prevHdr.Timestamp
+	case "badpayload":
+		hdr.ConsensusPayload = []byte("{\"leader\":1,\"new_chain_config\":")
+	}
 	if !isHdr {
 		hdr.BlockRoot = L.GetBlockRootWithPreBlockHashes(height, []common.Uint256{prevHash})
 		if defect == "badroot" {
@@ -597,6 +607,48 @@ func (s *sim) sweepPhase(phase string, paths []string, specs []sigSpec, vec *[]b
 				return // the ledger no longer matches the reference; the violation is recorded
 			}
 		}
+		// config-ANNOUNCING header/block refused at every rejection stage, each followed by a header/block
+		// signed by the announced set: the set in force must stay what it was (checked inside call()).
+		for _, st := range rejectStages {
+			cur := s.blkSet
+			if path == pHdr {
+				cur = s.hdrSet
+			}
+			sp, defect, ok := stageSpec(st, cur, mReq(len(cur), s.main, s.hdrTip), path)
+			if !ok || r.Expired() {
+				continue
+			}
+			announced := cat([]*polyenv.Acct{polyenv.Key(501)}, cur[1:]...)
+			if defect == "badpayload" {
+				announced = nil
+			}
+			out := s.call(path, sp, announced, defect, "announce-rep/"+st, []string{phase, path, "announce-rep/" + st})
+			atomic.AddInt64(&nCalls, 1)
+			res := "reject"
+			if out.accepted {
+				res = "accept"
+				*vec = append(*vec, 'A')
+			} else {
+				*vec = append(*vec, 'r')
+			}
+			r.Class("announce-refused-at/" + st + "/" + res)
+			r.Case(fmt.Sprintf("%s/N=%d/%s/announce-rep/%s/%s", out.region, n, path, st, res))
+			if !out.accepted && announced != nil && s.diverge == "" {
+				fo := s.call(path, sigSpec{"announced-set", announced, good(announced...)}, nil, "", "announce-rep/"+st+"+announced-set-signs",
+					[]string{phase, path, "announce-rep/" + st, "then plain signed by the announced set"})
+				atomic.AddInt64(&nCalls, 1)
+				if fo.accepted {
+					*vec = append(*vec, 'A')
+					r.Class("followup-by-announced-set/accept")
+				} else {
+					*vec = append(*vec, 'r')
+					r.Class("followup-by-announced-set/reject")
+				}
+			}
+			if s.diverge != "" {
+				return
+			}
+		}
 	}
 }
 
@@ -674,15 +726,30 @@ var handoverEventsAll = []string{
 	"A:plain/old(t)", "S:plain/old", "H:plain/old",
 	"A:add/all", "S:rem/all", "A:rep/all", "S:rep/all", "A:rem/all(t)", "S:add/all(t)",
 	"H:add/all(t)", "H:rem/all", "H:rep/all",
-	"A:rep/under", "S:add/under", "H:rep/under",
-	"A:rep/badstate", "A:rem/badstate(t)", "S:rep/badroot", "A:add/badroot",
+	"A:plain/badpayload", "S:plain/badpayload", "H:plain/badpayload",
+	// + for every path: <path>:rep/<stage> for every rejection stage, <path>:add/wronghash, <path>:rem/wronghash (initEvents)
 	"restart",
 }
 
 var handoverEvents []string
 
 func initEvents(thorough bool) {
+	var all []string
 	for _, e := range handoverEventsAll {
+		if e == "restart" {
+			for _, p := range []string{"A", "S", "H"} {
+				for _, st := range rejectStages {
+					if st == "badpayload" || (st == "badroot" && p == "H") || (st == "badstate" && p != "A") {
+						continue
+					}
+					all = append(all, p+":rep/"+st)
+				}
+				all = append(all, p+":add/wronghash", p+":rem/wronghash")
+			}
+		}
+		all = append(all, e)
+	}
+	for _, e := range all {
 		if strings.HasSuffix(e, "(t)") {
 			if !thorough {
 				continue
@@ -691,6 +758,45 @@ func initEvents(thorough bool) {
 		}
 		handoverEvents = append(handoverEvents, e)
 	}
+}
+
+// rejection stages of verifyHeader / saveBlock / submitBlock, in the order the checks run. Each yields a
+// signer spec (+ header/block defect) that must be refused; used with config-ANNOUNCING headers/blocks to
+// show that a refused announcement never becomes the set in force.
+var rejectStages = []string{"badtime", "under", "foreign", "nosig", "corrupt", "wronghash", "badpayload", "badroot", "badstate"}
+
+func stageSpec(stage string, cur []*polyenv.Acct, m int, path string) (sp sigSpec, defect string, ok bool) {
+	ok = true
+	switch stage {
+	case "all":
+		sp = sigSpec{stage, cur, good(cur...)}
+	case "under": // too few bookkeepers
+		sp = sigSpec{stage, cur[:m-1], good(cur[:m-1]...)}
+	case "foreign": // a foreign bookkeeper next to the full set
+		f := cat(cur, polyenv.Key(500))
+		sp = sigSpec{stage, f, good(f...)}
+	case "nosig": // correct bookkeeper list, no signature at all
+		sp = sigSpec{stage, cur, nil}
+	case "corrupt": // correct bookkeeper list, first signature damaged
+		sp = sigSpec{stage, cur, append([]sigEnt{{cur[0], sgCorrupt}}, good(cur[1:]...)...)}
+	case "wronghash": // correct bookkeeper list, well-formed signatures over another hash
+		var se []sigEnt
+		for _, a := range cur {
+			se = append(se, sigEnt{a, sgOtherHash})
+		}
+		sp = sigSpec{stage, cur, se}
+	case "badtime", "badpayload":
+		sp, defect = sigSpec{stage, cur, good(cur...)}, stage
+	case "badroot":
+		sp, defect = sigSpec{stage, cur, good(cur...)}, stage
+		ok = path != pHdr
+	case "badstate":
+		sp, defect = sigSpec{stage, cur, good(cur...)}, stage
+		ok = path == pAdd
+	default:
+		ok = false
+	}
+	return
 }
 
 // apply one event; returns false when the event is not applicable in this state.
@@ -722,7 +828,6 @@ func (s *sim) apply(evn string, trace []string) bool {
 	switch kind {
 	case "add":
 		newSet = cat(cur, polyenv.Key(s.fresh))
-		s.fresh++
 	case "rem":
 		if len(cur) < 2 {
 			return false
@@ -730,26 +835,38 @@ func (s *sim) apply(evn string, trace []string) bool {
 		newSet = cat(cur[:len(cur)-1])
 	case "rep":
 		newSet = cat([]*polyenv.Acct{polyenv.Key(s.fresh)}, cur[1:]...)
-		s.fresh++
 	}
 	m := mReq(len(cur), s.main, s.hdrTip)
-	var signers []*polyenv.Acct
+	var sp sigSpec
 	defect := ""
-	switch who {
-	case "all":
-		signers = cur
-	case "under":
-		signers = cur[:m-1]
-	case "old":
+	if who == "old" {
 		if names(prev) == names(cur) {
 			return false
 		}
-		signers = prev
-	case "badroot", "badstate":
-		signers = cur
-		defect = who
+		sp = sigSpec{who, prev, good(prev...)}
+	} else {
+		var ok bool
+		if sp, defect, ok = stageSpec(who, cur, m, pc); !ok {
+			return false
+		}
+		if defect == "badpayload" {
+			newSet = nil // an undecodable payload announces nothing
+		}
 	}
-	out := s.call(pc, sigSpec{who, signers, good(signers...)}, newSet, defect, kind+"/"+who, trace)
+	out := s.call(pc, sp, newSet, defect, kind+"/"+who, trace)
+	if out.accepted && (kind == "add" || kind == "rep") {
+		s.fresh++
+	}
+	if !out.accepted && newSet != nil && kind != "rem" && s.diverge == "" {
+		// follow-up (not for "rem": a subset of the set in force signing is an ordinary block): the set announced by the REFUSED header/block signs the next one. It is judged against
+		// the set really in force (for add/rep it lists a key foreign to it and must be refused).
+		fo := s.call(pc, sigSpec{"announced-set", newSet, good(newSet...)}, nil, "", kind+"/"+who+"+announced-set-signs", append(append([]string{}, trace...), "(then "+evn[:2]+"plain signed by the announced set)"))
+		if fo.accepted {
+			r.Class("handover/followup-by-announced-set/accept")
+		} else {
+			r.Class("handover/followup-by-announced-set/reject")
+		}
+	}
 	res := "reject"
 	if out.accepted {
 		res = "accept"
@@ -934,7 +1051,13 @@ func main() {
 		r.Require("private-legacy/accept", "private-legacy/reject", "main-legacy/accept", "main-legacy/reject",
 			"main-boundary/accept", "main-boundary/reject", "main-new/accept", "main-new/reject",
 			"main-new/reject:legacy-would-accept", "handover/accept", "handover/reject", "handover/old-set-rejected-after-handover",
-			"handover/restart")
+			"handover/restart", "followup-by-announced-set/reject", "handover/followup-by-announced-set/reject")
+		for _, st := range rejectStages {
+			r.Require("announce-refused-at/" + st + "/reject")
+			if st != "badpayload" {
+				r.Require("handover/rep/" + st + "/reject")
+			}
+		}
 	}
 	if canonKO > 0 && r.NViolations() == 0 {
 		r.HarnessError("canonical fully-signed block/header rejected %d times (see evidence notes)", canonKO)
